@@ -122,9 +122,19 @@ func c19SplitFM(src string) (string, string) {
 func c19Doctype(src string) string {
 	_, body := c19SplitFM(src)
 	tb := strings.TrimSpace(body)
-	if strings.HasPrefix(tb, "<!DOCTYPE") {
-		if i := strings.Index(tb, ">"); i >= 0 {
-			return tb[:i+1]
+	if len(tb) >= 9 && strings.EqualFold(tb[:9], "<!DOCTYPE") {
+		var q byte
+		for i := 0; i < len(tb); i++ {
+			switch c := tb[i]; {
+			case q != 0:
+				if c == q {
+					q = 0
+				}
+			case c == '"' || c == '\'':
+				q = c
+			case c == '>':
+				return tb[:i+1]
+			}
 		}
 	}
 	return ""
@@ -215,6 +225,14 @@ func (g *srcGen) c19Attrs() string {
 	return sb.String()
 }
 
+// doctypes as authors write them: the HTML5 one in both letter cases, the HTML 4.01 and XHTML declarations, single-quoted identifiers, a ">" inside an identifier
+var c19Doctypes = []string{
+	"<!DOCTYPE html>", "<!doctype html>", "<!DOCTYPE HTML>", "<!Doctype Html>",
+	`<!DOCTYPE HTML PUBLIC "-//W3C//DTD HTML 4.01//EN" "http://www.w3.org/TR/html4/strict.dtd">`,
+	`<!DOCTYPE html PUBLIC "-//W3C//DTD XHTML 1.0 Transitional//EN" "http://www.w3.org/TR/xhtml1/DTD/xhtml1-transitional.dtd">`,
+	`<!DOCTYPE html SYSTEM 'about:legacy-compat'>`, `<!DOCTYPE html SYSTEM "a>b">`, "<!DOCTYPE  html >",
+}
+
 func c19Generate(g *srcGen) string {
 	g.n = 0
 	var sb strings.Builder
@@ -223,7 +241,7 @@ func c19Generate(g *srcGen) string {
 	}
 	full := g.r.Intn(8) == 0
 	if full {
-		sb.WriteString("<!DOCTYPE html>\n<html><head><title>t</title></head><body>")
+		sb.WriteString(c19Doctypes[g.r.Intn(len(c19Doctypes))] + "\n<html><head><title>t</title></head><body>")
 	}
 	texts := []string{"word", "two words", "a &lt; b", "x &amp; y", "{{ a < b }}", "{{ x > 1 && y }}", "{{ name }}", "1 &gt; 0", "&copy; 2024", "{{ a & b }} tail"}
 	var block func(d int, inline bool) string
@@ -236,7 +254,7 @@ func c19Generate(g *srcGen) string {
 		case "style":
 			return "<style>\n  a > b { color: red; }\n</style>"
 		case "pre":
-			return "<pre" + g.c19Attrs() + ">  keep   this\n   {{ a < b }} &lt;tag&gt; <b>bold</b>\n</pre>"
+			return "<pre" + g.c19Attrs() + ">" + []string{"", "\n", "\n\n", "  "}[g.r.Intn(4)] + "  keep   this\n   {{ a < b }} &lt;tag&gt; <b>bold</b>\n</pre>"
 		case "table":
 			return "<table><tbody><tr><td" + g.c19Attrs() + ">" + texts[g.r.Intn(len(texts))] + "</td><td>2</td></tr></tbody></table>"
 		case "ul":
@@ -303,6 +321,13 @@ func runC19(r *Run, replay *Case) {
 		r.Add(c19Eval("attr:"+v, `<p title=`+q+v+q+`>x</p>`))
 	}
 	r.Add(c19Eval("attr:both-quotes", `<p title="it&#39;s &quot;q&quot;">x</p>`))
+	for _, dt := range c19Doctypes {
+		r.Add(c19Eval("doctype", dt+"\n<html><head><title>t</title></head><body><p>x</p></body></html>"))
+		r.Add(c19Eval("doctype", "---\ntitle: T\n---\n"+dt+"\n<html>\n<head></head>\n<body><p>x</p></body>\n</html>\n"))
+	}
+	for _, pre := range []string{"<pre>\n\nfirst</pre>", "<pre>\nfirst</pre>", "<pre>first\n\n</pre>", "<div><pre>\n\n  a\n   b\n</pre></div>", "<pre>\n\n\nthree</pre>", "<pre><b>\nx</b></pre>"} {
+		r.Add(c19Eval("pre", pre))
+	}
 	n := 2000
 	if r.Thorough() {
 		n = 50000
